@@ -6,6 +6,19 @@ fn run<const B: usize, const L: usize>(p: &[&str]) -> String {
     let op = p[0];
     match op {
         "prod" | "prodref" => {
+            if p[2].split(',').any(|t| t == "N") {
+                // `N` = the iterator returns `None` there and goes on afterwards (a non-fused iterator): only the items
+                // before the first `None` belong to the product
+                let items: Vec<Option<U<B, L>>> =
+                    p[2].split(',').map(|t| if t == "N" { None } else { Some(u::<B, L>(t)) }).collect();
+                let mut i = 0usize;
+                let r: U<B, L> = if op == "prod" {
+                    std::iter::from_fn(|| { let r = items.get(i).copied().flatten(); i += 1; r }).product()
+                } else {
+                    std::iter::from_fn(|| { let r = items.get(i).and_then(|o| o.as_ref()); i += 1; r }).product()
+                };
+                return h(&r);
+            }
             let xs: Vec<U<B, L>> =
                 if p[2] == "-" { vec![] } else { p[2].split(',').map(u::<B, L>).collect() };
             let r: U<B, L> = if op == "prod" { xs.into_iter().product() } else { xs.iter().product() };
